@@ -37,6 +37,10 @@ pub struct RunStats {
     pub idle_passes: u64,
     pub idle_pass_writes: u64,
     pub idle_pass_removes: u64,
+    /// in-place comparisons: files compared / left out because processing them twice
+    /// gives something else
+    pub in_place_compared: u64,
+    pub in_place_not_idempotent: u64,
 }
 
 fn budget_for(files: usize) -> u64 {
@@ -627,12 +631,157 @@ impl Oracle {
     }
 }
 
+/// Entries of a fresh store holding exactly the files and directories of `snapshot`.
+fn entries_of(snapshot: &Snapshot) -> Vec<FsEntry> {
+    snapshot
+        .iter()
+        .map(|(path, content)| FsEntry {
+            path: path.clone(),
+            body: match content {
+                Some(bytes) => Body::from_bytes(bytes),
+                None => Body::Dir,
+            },
+        })
+        .collect()
+}
+
+/// In-place processing (no output location): the output tree *is* the input tree. The
+/// reference is a fresh in-place run over what the *user* last wrote (`user`, a store the
+/// worker never touches), compared with the tree the long-lived worker has been rewriting.
+/// A file the worker processed twice (a touch) equals the reference only when the
+/// pipeline is idempotent on it; that is checked by running the reference a second time
+/// over its own result and leaving out the paths that still change.
+#[allow(clippy::too_many_arguments)]
+fn compare_in_place(
+    backend: Backend,
+    user: &Store,
+    store: &Store,
+    opts: &OptSpec,
+    outcome: &Outcome,
+    pass_index: usize,
+    fresh_counter: &mut u64,
+    stats: &mut RunStats,
+    violations: &mut Vec<Violation>,
+) {
+    let at = format!("pass #{}", pass_index);
+    if let Outcome::Panic(msg) = outcome {
+        violations.push(Violation::new(
+            P,
+            "bounded",
+            &panic_class(msg),
+            format!("{}: the worker panicked: {}", at, msg),
+        ));
+        return;
+    }
+    *fresh_counter += 1;
+    let hash = crate::rng::mix(0x1f2e3d4c, *fresh_counter);
+    let (fresh, expected) = match fresh_run(backend, entries_of(&user.snapshot()), opts.clone(), hash) {
+        Ok(r) => r,
+        Err(e) => {
+            violations.push(Violation::new(P, "harness", "fresh-run-failed", e));
+            return;
+        }
+    };
+    let (_, again) = match fresh_run(backend, entries_of(&expected), opts.clone(), hash ^ 1) {
+        Ok(r) => r,
+        Err(e) => {
+            violations.push(Violation::new(P, "harness", "fresh-run-failed", e));
+            return;
+        }
+    };
+    stats.fresh_runs += 2;
+    stats.executions += 2;
+    match (outcome, &fresh) {
+        (Outcome::Done { errors, .. }, Outcome::Done { errors: fresh_errors, .. }) => {
+            if errors != fresh_errors {
+                violations.push(Violation::new(
+                    P,
+                    "errors",
+                    "errors-differ",
+                    format!(
+                        "{}: (in place) the worker reports {:?}, a fresh run over the same inputs {:?}",
+                        at, errors, fresh_errors
+                    ),
+                ));
+            }
+        }
+        (Outcome::BatchErr(_), Outcome::BatchErr(_)) => {}
+        (a, b) => {
+            violations.push(Violation::new(
+                P,
+                "errors",
+                "outcome-differs",
+                format!("{}: (in place) the worker ended with {}, a fresh run with {}", at, a.brief(), b.brief()),
+            ));
+            return;
+        }
+    }
+    let actual = store.snapshot();
+    let mut by_class: BTreeMap<&'static str, Vec<String>> = BTreeMap::new();
+    for (path, want) in &expected {
+        if want.is_none() {
+            continue;
+        }
+        if again.get(path) != Some(want) {
+            // processing this file twice gives something else: not comparable
+            stats.in_place_not_idempotent += 1;
+            continue;
+        }
+        stats.in_place_compared += 1;
+        match actual.get(path) {
+            Some(got) if got == want => {}
+            Some(got) => by_class.entry("stale").or_default().push(format!(
+                "`{}`: fresh has {}, the worker's tree has {}",
+                path,
+                show_bytes(want),
+                show_bytes(got)
+            )),
+            None => by_class
+                .entry("missing")
+                .or_default()
+                .push(format!("`{}`: fresh has {}, the worker's tree has nothing", path, show_bytes(want))),
+        }
+    }
+    for (path, got) in &actual {
+        if got.is_some() && !expected.contains_key(path) {
+            by_class
+                .entry("orphan")
+                .or_default()
+                .push(format!("`{}`: the worker's tree has {}, fresh has nothing", path, show_bytes(got)));
+        }
+    }
+    for (class, details) in by_class {
+        violations.push(Violation::new(
+            P,
+            "equal",
+            class,
+            format!(
+                "{}: (in place) the tree differs from a fresh in-place run over what the user wrote ({}):\n {}",
+                at,
+                class,
+                details.join("\n ")
+            ),
+        ));
+    }
+}
+
 pub fn run_l1(scn: &C10Scenario, stats: &mut RunStats) -> Vec<Violation> {
     let mut violations: Vec<Violation> = Vec::new();
     let store = Store::new(scn.backend, scn.walk_seed, &scn.entries);
     let resources = store.resources();
     let mut opts = scn.opts.clone();
-    let region = output_region(&opts, false);
+    let in_place = opts.output.is_none();
+    let region = if in_place {
+        gen::normalize(&opts.input)
+    } else {
+        output_region(&opts, false)
+    };
+    // in place: what the user wrote, untouched by the worker
+    let user: Option<Store> = if in_place {
+        Some(Store::new(scn.backend, scn.walk_seed, &scn.entries))
+    } else {
+        None
+    };
     let mut oracle = Oracle::new(scn.backend, &store, &region);
     let mut inc = Incremental { tree: None };
     let mut pass_index = 0usize;
@@ -653,6 +802,9 @@ pub fn run_l1(scn: &C10Scenario, stats: &mut RunStats) -> Vec<Violation> {
                 let existed = store.user_read(path).is_some();
                 if let Some(bytes) = body.bytes() {
                     store.user_write(path, &bytes);
+                    if let Some(user) = &user {
+                        user.user_write(path, &bytes);
+                    }
                 }
                 oracle.removed_sources.remove(path);
                 if let Some(tree) = inc.tree.as_mut() {
@@ -667,6 +819,7 @@ pub fn run_l1(scn: &C10Scenario, stats: &mut RunStats) -> Vec<Violation> {
                                     Path::new(&out).join(rel).to_string_lossy().into_owned()
                                 });
                                 if gen::is_lua(path) && mirror.is_some() {
+                                    let mirror = if in_place { None } else { mirror };
                                     tree.add_source(Path::new(path), mirror.map(Into::into));
                                 } else {
                                     tree.source_changed(Path::new(path));
@@ -718,6 +871,9 @@ pub fn run_l1(scn: &C10Scenario, stats: &mut RunStats) -> Vec<Violation> {
                     }
                 }
                 store.user_remove(path);
+                if let Some(user) = &user {
+                    user.user_remove(path);
+                }
                 if let Some(tree) = inc.tree.as_mut() {
                     if let Err(msg) = exec::catch(|| tree.remove_source(Path::new(path))) {
                         violations.push(Violation::new(
@@ -735,6 +891,18 @@ pub fn run_l1(scn: &C10Scenario, stats: &mut RunStats) -> Vec<Violation> {
                 for p in current.keys() {
                     if is_under(p, from) && gen::is_lua(p) {
                         oracle.removed_sources.insert(p.clone());
+                    }
+                }
+                if let Some(user) = &user {
+                    // the user moves what is on disk now (already processed or not)
+                    let moved: Vec<(String, Vec<u8>)> = current
+                        .iter()
+                        .filter(|(p, c)| is_under(p, from) && c.is_some())
+                        .map(|(p, c)| (format!("{}{}", to, &p[from.len()..]), c.clone().unwrap()))
+                        .collect();
+                    user.user_remove(from);
+                    for (p, bytes) in moved {
+                        user.user_write(&p, &bytes);
                     }
                 }
                 if let Some(fs) = &sim {
@@ -822,16 +990,30 @@ pub fn run_l1(scn: &C10Scenario, stats: &mut RunStats) -> Vec<Violation> {
                     }
                 }
                 let before_len = violations.len();
-                oracle.compare(
-                    &store,
-                    &opts,
-                    &outcome,
-                    &pass_log,
-                    pass_index,
-                    faulty_pass,
-                    stats,
-                    &mut violations,
-                );
+                if let Some(user) = &user {
+                    compare_in_place(
+                        scn.backend,
+                        user,
+                        &store,
+                        &opts,
+                        &outcome,
+                        pass_index,
+                        &mut oracle.fresh_counter,
+                        stats,
+                        &mut violations,
+                    );
+                } else {
+                    oracle.compare(
+                        &store,
+                        &opts,
+                        &outcome,
+                        &pass_log,
+                        pass_index,
+                        faulty_pass,
+                        stats,
+                        &mut violations,
+                    );
+                }
                 // non-trivial: a pass after the first that rewrote a strict non-empty subset
                 if pass_index > 0 {
                     let rec = summarize(&pass_log);
@@ -1229,6 +1411,11 @@ impl Property for C10 {
         counters.insert("relaxed_failing_sources".to_owned(), stats.relaxed_sources);
         counters.insert(format!("backend:{:?}", scn.backend), 1);
         counters.insert(format!("layer:{:?}", scn.layer), 1);
+        if scn.opts.output.is_none() {
+            counters.insert("in_place_histories".to_owned(), 1);
+            counters.insert("in_place_files_compared".to_owned(), stats.in_place_compared);
+            counters.insert("in_place_files_not_idempotent".to_owned(), stats.in_place_not_idempotent);
+        }
         if scn.opts.include_deps.is_some() {
             counters.insert("harness_rule_verif_include".to_owned(), 1);
         }
@@ -1336,6 +1523,9 @@ impl Property for C10 {
                     // a finding that needs the harness rule never matches a scenario
                     // without it, and the other way round
                     kinds.push("HarnessRule".to_owned());
+                }
+                if scn.opts.output.is_none() {
+                    kinds.push("InPlace".to_owned());
                 }
                 kinds.sort();
                 kinds
